@@ -45,7 +45,7 @@ func ulpDiff(a, b float64) float64 {
 // builtinCase judges one call `name(args…)`: value (with ulp tolerance for
 // the transcendental functions) or error, exactly as the model says.
 func builtinCase(c *fw.Ctx, name string, args []*model.N, sig string, tolerant bool, stdin string, lines []string, clock float64, clockNanos int64) {
-	prog := parenAll([]*model.N{model.Fun("uf", nil), T("before"), model.Print(model.CallN(name, args...)), T("after")})
+	prog := parenAll(append(c02Prelude(), T("before"), model.Print(model.CallN(name, args...)), T("after")))
 	src := model.Render(prog)
 	m := &model.Machine{Stdin: lines, Clock: clock}
 	res := m.Run(prog)
@@ -170,6 +170,52 @@ func C17(c *fw.Ctx) {
 			}
 		}
 	}
+	if !c.Quick() {
+		// every built-in on every argument list of length 1 and 2 over the whole operand alphabet of C02
+		// (all kinds, boundary magnitudes, integer-typed results, shared containers), of length 3 too, and of length 4 over a
+		// sub-alphabet of twelve
+		ops := c02Operands()
+		c.Bound("thorough_argument_alphabet", len(ops))
+		var sub []operand
+		for _, o := range ops {
+			switch o.Name {
+			case "nil", "0", "-1", "0.5", "2", "2^63", "NaN", `"a"`, "[1]", "AA", "{k:1}", "uf":
+				sub = append(sub, o)
+			}
+		}
+		for _, name := range names {
+			for _, x := range ops {
+				if c.Mine() {
+					builtinCase(c, name, []*model.N{x.Mk()}, "alphabet1|"+name+"|"+kindLabel(x.Name), false, "typed line\n", []string{"typed line"}, 1700000000.123, 0)
+				}
+				for _, y := range ops {
+					if c.Mine() {
+						builtinCase(c, name, []*model.N{x.Mk(), y.Mk()}, "alphabet2|"+name+"|"+kindLabel(x.Name)+"|"+kindLabel(y.Name), false, "typed line\n", []string{"typed line"}, 1700000000.123, 0)
+					}
+				}
+			}
+			for _, x := range ops {
+				for _, y := range ops {
+					for _, z := range ops {
+						if c.Mine() {
+							builtinCase(c, name, []*model.N{x.Mk(), y.Mk(), z.Mk()}, "alphabet3|"+name, false, "typed line\n", []string{"typed line"}, 1700000000.123, 0)
+						}
+					}
+				}
+			}
+			for _, x := range sub {
+				for _, y := range sub {
+					for _, z := range sub {
+						for _, w := range sub {
+							if c.Mine() {
+								builtinCase(c, name, []*model.N{x.Mk(), y.Mk(), z.Mk(), w.Mk()}, "alphabet4|"+name, false, "typed line\n", []string{"typed line"}, 1700000000.123, 0)
+							}
+						}
+					}
+				}
+			}
+		}
+	}
 	// numeric boundaries
 	vals := []float64{0, math.Copysign(0, -1), 0.5, -0.5, 1.5, -1.5, 2.5, -2.5, 0.49999999999999994, 4503599627370496.5, 4503599627370497, 1e308, -1e308,
 		math.SmallestNonzeroFloat64, -1, 1, 2, 3.7, -3.7, 1e-5, 1e6, 1e21, 16, 0.1, math.Pi, math.Pi / 2, 100, 1e15, math.Inf(1), math.Inf(-1), math.NaN()}
@@ -187,6 +233,27 @@ func C17(c *fw.Ctx) {
 		}
 		return model.NumT(bigLit(f))
 	}
+	powVals := vals
+	if !c.Quick() {
+		// the doubles next to every boundary, every half from -64.5 to 64.5 with its neighbours, and
+		// one value per binade (2^e * 1.5, e = -1074..1023 step 7)
+		var more []float64
+		for _, v := range vals {
+			if !math.IsNaN(v) && !math.IsInf(v, 0) {
+				more = append(more, math.Nextafter(v, math.Inf(1)), math.Nextafter(v, math.Inf(-1)))
+			}
+		}
+		powVals = append(append([]float64{}, vals...), more...)
+		for k := -64; k <= 64; k++ {
+			hv := float64(k) + 0.5
+			more = append(more, hv, math.Nextafter(hv, math.Inf(1)), math.Nextafter(hv, math.Inf(-1)), float64(k))
+		}
+		for e := -1074; e <= 1023; e += 7 {
+			more = append(more, math.Ldexp(1.5, e), -math.Ldexp(1.5, e))
+		}
+		vals = append(vals, more...)
+		c.Bound("thorough_numeric_arguments", len(vals))
+	}
 	for _, name := range []string{model.BiAbs, model.BiSqrt, model.BiRound, model.BiSin, model.BiCos, model.BiTan} {
 		tol := name == model.BiSin || name == model.BiCos || name == model.BiTan
 		for _, v := range vals {
@@ -196,8 +263,8 @@ func C17(c *fw.Ctx) {
 			builtinCase(c, name, []*model.N{lit(v)}, "numeric|"+name, tol, "", nil, 0, 0)
 		}
 	}
-	for _, a := range vals {
-		for _, b := range vals {
+	for _, a := range powVals {
+		for _, b := range powVals {
 			if !c.Mine() {
 				continue
 			}
